@@ -1163,6 +1163,13 @@ def enumerate_spec(spec, tier):
                         if cv is not None and cv[3]:
                             for ov in (1, 2):
                                 S2.append((scen_upp, (spec, im, fh, l0, n1, m, cv, False, "update-same", ov)))
+    # ---- S2 (cont.): training series that END at time point 0 (a cutoff of 0 is falsy: `if cutoff:` style guards)
+    im0 = IndexMap("range")
+    for fh in fhs[:2]:
+        for n1 in n1s[:1]:
+            for cv in (("sliding", 3, 2, True), ("expanding", 2, 1, True)):
+                for up in (True, False):
+                    S2.append((scen_upp, (spec, im0, fh, 1 - n1, n1, max(fh) + 4, cv, up, "update-same")))
     # ---- S3: update_predict_single
     for kind in kinds:
         im = IndexMap(kind)
@@ -1220,7 +1227,7 @@ def bounded(tier, seed):
         "with revised values; S2: update_predict with 10 sliding/expanding splitter shapes (window<=4, step<=3, both start modes) and the "
         "default cv, update_params on/off, followed by one of 7 continuations (update with the same data, second update_predict, "
         "update_predict_single, ...), also starting 1-2 points inside the seen data; S3: update_predict_single with 1/3 new points, overlap "
-        "0/2, then update or another single; horizons " + str(FHS[:3] if tier == "quick" else FHS) + "; RangeIndex at offsets 0/3"
+        "0/2, then update or another single; horizons " + str(FHS[:3] if tier == "quick" else FHS) + "; RangeIndex at offsets 0/3 and, for update_predict, also ending at time point 0"
         + ("" if tier == "quick" else f", integer Index ({nint} configurations run with it in the sandbox), monthly PeriodIndex ({nper} configurations)") +
         f". The enumerated space has {total} call sequences; a seeded sample of {ran} of them was run (sized per configuration by its cost), "
         f"plus {rnd} seeded random call sequences of 3-6 calls (S4). Not covered: exogenous X, in-sample/absolute horizons, prediction "
